@@ -94,8 +94,10 @@ def _parse_comments(tokens: TokenIterator):
         while comment:
             comment, found, meta = comment.rpartition('::')
             if found:
-                key, _, value = meta.partition(' ')
-                metadata[key] = value.rstrip()
+                # strip first so a line terminator kept by the caller
+                # (e.g. '# ::id\r\n') does not end up in the key
+                key, _, value = meta.rstrip().partition(' ')
+                metadata[key] = value
     return metadata
 
 
